@@ -1396,6 +1396,76 @@ Qed.
 Lemma with_srcs_same s i x : nth_error (srcs s) i = Some x -> with_srcs s (upd (srcs s) i x) = s.
 Proof. intros H. unfold with_srcs. rewrite upd_same by exact H. destruct s; reflexivity. Qed.
 
+(* most general form: the caller supplies the consumer-side facts and the other workers' invariants *)
+Lemma GI_local_gen s s' i p p' x x' :
+  GI s -> nth_error (ws s) i = Some p -> nth_error (srcs s) i = Some x ->
+  nw s' = nw s -> ws s' = upd (ws s) i p' -> srcs s' = upd (srcs s) i x' ->
+  merged s' = merged s -> ctx s' = ctx s -> sdone s' = sdone s -> serr s' = serr s -> rdone s' = rdone s ->
+  once s' = once s -> winners s' = winners s -> sclosed s' = sclosed s ->
+  ndone s' + b2n (post_defer p) = ndone s + b2n (post_defer p') -> (post_defer p = true -> post_defer p' = true) ->
+  (merged s = true -> wg s' + b2n (not_exited p) = wg s + b2n (not_exited p')) ->
+  (closer p' = true -> closer p = true \/ post_defer p = false) ->
+  (closer p = true -> closer p' = true \/ sdone s = true) ->
+  (post_defer p = false -> post_defer p' = true -> ndone s' = nw s -> closer p' = true) ->
+  (forall e, winning p e -> winning p' e) ->
+  (forall j q y, j <> i -> nth_error (ws s) j = Some q -> nth_error (srcs s) j = Some y -> WI s' j q y) ->
+  k_ok s' -> seen_ok s' -> Forall (fun p => fst p < nw s) (recvd s') ->
+  (WI s i p x -> WI s' i p' x') ->
+  GI s'.
+Proof.
+  intros HG Hp Hx En Ews Esrcs Em Ec Ed Ee Er Eo Ewn Esc Hnd Hmono Hwg Ecl1 Ecl2 Ecl3 Hnw Hothers HK HS HT HW.
+  assert (Hi : i < length (ws s)) by (apply nth_error_Some; congruence).
+  constructor; rewrite ?En, ?Ews, ?Esrcs, ?Em, ?Ec, ?Ed, ?Ee, ?Er, ?Eo, ?Ewn, ?Esc, ?upd_length;
+    try (apply HG; fail); try assumption.
+  - pose proof (count_upd post_defer _ _ _ p' Hp) as C. pose proof (g_ndone _ HG). lia.
+  - intros Hm. pose proof (count_upd not_exited _ _ _ p' Hp) as C. pose proof (g_wg _ HG Hm). specialize (Hwg Hm). lia.
+  - pose proof (g_once _ HG) as O. destruct (once s); [|exact O].
+    destruct O as (i0 & e & p0 & A & B & C). exists i0, e.
+    destruct (Nat.eq_dec i i0) as [<-|Hne].
+    + exists p'. split; [exact A|]. split; [apply nth_error_upd_same; exact Hi|].
+      destruct C as [C|C]; [left; exact C|]. rewrite Hp in B. inversion B; subst. right. apply Hnw. exact C.
+    + exists p0. split; [exact A|]. split; [rewrite nth_error_upd_other by exact Hne; exact B|exact C].
+  - pose proof (g_sender _ HG) as S. destruct (sdone s) eqn:Ed'; [|exact S]. destruct S as [S1 S2]. split; [exact S1|].
+    destruct (serr s) eqn:Ee'; [exact S2|]. destruct S2 as (A & B & C).
+    assert (Hpd : post_defer p = true).
+    { eapply count_all; [|exact Hp]. rewrite <- (g_ndone _ HG), (g_lenw _ HG). exact B. }
+    assert (Hpd' : post_defer p' = true) by (apply Hmono; exact Hpd).
+    split; [exact A|]. split; [rewrite Hpd, Hpd' in Hnd; lia|].
+    intros j q Hq. destruct (nth_error_upd_cases _ _ _ _ _ Hq) as [[-> ->]|[Hne Hq']].
+    + destruct (closer p') eqn:E; [|reflexivity]. destruct (Ecl1 eq_refl) as [Cp|Cp].
+      * rewrite <- (C i p Hp). symmetry. exact Cp.
+      * congruence.
+    + eapply C; eauto.
+  - intros j1 j2 q1 q2 H1 H2 C1 C2.
+    destruct (nth_error_upd_cases _ _ _ _ _ H1) as [[-> ->]|[Hne1 H1']];
+      destruct (nth_error_upd_cases _ _ _ _ _ H2) as [[-> ->]|[Hne2 H2']]; auto.
+    + destruct (Ecl1 C1) as [Cp|Cp]; [eapply (g_lone _ HG); eauto|].
+      rewrite (pre_defer_no_closer _ _ _ _ _ HG Hp Cp H2') in C2. discriminate.
+    + destruct (Ecl1 C2) as [Cp|Cp]; [eapply (g_lone _ HG); eauto|].
+      rewrite (pre_defer_no_closer _ _ _ _ _ HG Hp Cp H1') in C1. discriminate.
+    + eapply (g_lone _ HG); eauto.
+  - (* alldone *) intros A B.
+    destruct (post_defer p) eqn:Epd; destruct (post_defer p') eqn:Epd'; simpl in Hnd.
+    + assert (A' : ndone s = nw s) by lia.
+      destruct (g_alldone _ HG A' B) as [D|(j & q & Hq & C)]; [left; exact D|].
+      destruct (Nat.eq_dec i j) as [<-|Hne].
+      * rewrite Hp in Hq. inversion Hq; subst. destruct (Ecl2 C) as [C'|D]; [|left; exact D].
+        right. exists i, p'. split; [apply nth_error_upd_same; exact Hi|exact C'].
+      * right. exists j, q. split; [rewrite nth_error_upd_other by exact Hne; exact Hq|exact C].
+    + exfalso. pose proof (count_upd post_defer _ _ _ p' Hp) as Cn. rewrite Epd, Epd' in Cn. simpl in Cn.
+      pose proof (g_ndone _ HG). assert (X : count post_defer (upd (ws s) i p') < length (upd (ws s) i p')).
+      { eapply count_lt; [apply nth_error_upd_same; exact Hi|exact Epd']. }
+      rewrite upd_length, (g_lenw _ HG) in X. lia.
+    + (* the worker that makes nDone reach len(in) becomes the closer *)
+      right. exists i, p'. split; [apply nth_error_upd_same; exact Hi|]. apply Ecl3; auto.
+    + exfalso. pose proof (pre_defer_lt _ _ _ HG Hp Epd). lia.
+  - intros j q y Hq Hy. destruct (nth_error_upd_cases _ _ _ _ _ Hq) as [[-> ->]|[Hne Hq']].
+    + rewrite nth_error_upd_same in Hy by (rewrite (g_lens _ HG), <- (g_lenw _ HG); exact Hi). inversion Hy; subst y.
+      apply HW. exact (g_workers _ HG i p x Hp Hx).
+    + rewrite nth_error_upd_other in Hy by congruence. apply Hothers; assumption.
+Qed.
+
+
 (* general form: worker i moves from p to p' (its source record from x to x'); nDone and the WaitGroup counter follow *)
 Lemma GI_local s s' i p p' x x' :
   GI s -> nth_error (ws s) i = Some p -> nth_error (srcs s) i = Some x ->
@@ -2202,5 +2272,71 @@ Proof.
       constructor; simpl; auto.
       * intros e0 [W|W]; subst q0; discriminate.
       * rewrite Epk. discriminate.
+Qed.
+
+(* ---- an item passes from worker i to the consumer (unbuffered rendezvous) ---- *)
+Lemma inv_transfer s i v p :
+  GI s -> nth_error (ws s) i = Some p -> (p = WSendSel v \/ p = WSendParked v) ->
+  rdone s = false -> merged s = true -> (forall r, kpc_ s <> KRet r) ->
+  GI (setw (with_recvd (with_kpc s (KRet (NItem v))) (i, v)) i WCallNext).
+Proof.
+  intros HG Hp Hpv Hr Hm Hk.
+  destruct (src_exists _ _ _ HG Hp) as [x Hx].
+  assert (Hpd : post_defer p = false) by (destruct Hpv; subst p; reflexivity).
+  assert (Hilt : i < nw s) by (rewrite <- (g_lenw _ HG); apply nth_error_Some; congruence).
+  eapply (GI_local_gen s _ i p WCallNext x x); eauto; simpl; try reflexivity.
+  - symmetry. apply upd_same. exact Hx.
+  - rewrite Hpd. reflexivity.
+  - congruence.
+  - intros _. destruct Hpv; subst p; reflexivity.
+  - discriminate.
+  - destruct Hpv; subst p; intros C; discriminate.
+  - discriminate.
+  - intros e [W|W]; destruct Hpv; subst p; discriminate.
+  - intros j q y Hne Hq Hy. destruct (g_workers _ HG j q y Hq Hy) as [w1 w2 w3 w4 w5 w6 w7 w8 w9].
+    constructor; simpl; rewrite ?from_snoc_other by congruence; assumption.
+  - unfold k_ok. simpl. auto.
+  - destruct (g_seen _ HG) as [S1 S2].
+    assert (Hres : forall r, In r (results (setw (with_recvd (with_kpc s (KRet (NItem v))) (i, v)) i WCallNext)) ->
+                             r = NItem v \/ In r (results s)).
+    { intros r Hin. unfold results in *. simpl in Hin. apply in_app_or in Hin.
+      destruct Hin as [Hin|[<-|[]]]; [right; apply in_or_app; left; exact Hin|left; reflexivity]. }
+    split.
+    + intros z Hz. destruct (Hres _ Hz) as [E|Hz']; [discriminate|]. apply S1. exact Hz'.
+    + intros Hz. destruct (Hres _ Hz) as [E|Hz']; [discriminate|].
+      destruct (S2 Hz') as [Z|(D & E & _)]; [left; exact Z|]. exfalso.
+      destruct (pre_defer_not_nil_closed _ _ _ HG Hp Hpd D) as [e He]. congruence.
+  - apply Forall_app. split; [exact (g_tags _ HG)|]. constructor; [exact Hilt|constructor].
+  - intros [w1 w2 w3 w4 w5 w6 w7 w8 w9].
+    constructor; simpl in *; auto; no_win.
+    + split; [discriminate|]. intros Hm'. congruence.
+    + rewrite from_snoc_same, app_nil_r. destruct Hpv; subst p; simpl in w7; exact w7.
+Qed.
+
+Lemma inv_TSendSel_chan s i s' : GI s -> step s (TSendSel i AChan) = Some s' -> GI s'.
+Proof.
+  intros HG Hs. simpl in Hs. destruct (nth_error (ws s) i) as [p|] eqn:Hp; [|discriminate].
+  destruct p; try discriminate. unfold k_parked in Hs. destruct (kpc_ s) eqn:Ek; try discriminate.
+  inversion Hs; subst s'; clear Hs.
+  pose proof (g_kpc _ HG) as K. unfold k_ok in K. rewrite Ek in K. destruct K as (Kr & Km & _).
+  eapply inv_transfer; eauto. rewrite Ek. discriminate.
+Qed.
+
+Lemma inv_TNextSel_chan s i s' : GI s -> step s (TNextSel (NAChan i)) = Some s' -> GI s'.
+Proof.
+  intros HG Hs. simpl in Hs. destruct (kpc_ s) eqn:Ek; try discriminate.
+  destruct (nth_error (ws s) i) as [p|] eqn:Hp; [|discriminate].
+  destruct p; try discriminate. inversion Hs; subst s'; clear Hs.
+  pose proof (g_kpc _ HG) as K. unfold k_ok in K. rewrite Ek in K. destruct K as (Kr & Km).
+  eapply inv_transfer; eauto. rewrite Ek. discriminate.
+Qed.
+
+Lemma inv_TDrain_some s i s' : GI s -> step s (TDrain (Some i)) = Some s' -> GI s'.
+Proof.
+  intros HG Hs. simpl in Hs. destruct (kpc_ s) eqn:Ek; try discriminate.
+  destruct (nth_error (ws s) i) as [p|] eqn:Hp; [|discriminate].
+  destruct p; try discriminate. inversion Hs; subst s'; clear Hs.
+  pose proof (g_kpc _ HG) as K. unfold k_ok in K. rewrite Ek in K. destruct K as (Kr & Km & _).
+  eapply inv_transfer; eauto. rewrite Ek. discriminate.
 Qed.
 End SMP.
